@@ -10,7 +10,7 @@ node (JSON lists, first element = kind):
   ["pile", focus, [[opt, node], ...]]              opt = ["pack"] | ["given", n] | ["weight", n]
   ["columns", focus, dividechars, min_width, [[opt, box(0/1), node], ...]]   opt = ["given", n] | ["weight", n]
   ["padding", node, align, width, min_width|None, left, right]
-                                                   align = ["left"]|["center"]|["right"]|["relative", p]; width = ["given", n]|["relative", p]
+                                                   align = ["left"]|["center"]|["right"]|["relative", p]; width = ["given", n]|["relative", p]|["pack"]
   ["filler", node, valign, height, min_height|None, top, bottom]
                                                    valign = ["top"]|["middle"]|["bottom"]|["relative", p]; height = ["pack"]|["given", n]|["relative", p]
   ["frame", body, header|None, footer|None, focus_part]     focus_part = "header"|"body"|"footer"
@@ -757,8 +757,8 @@ class Gen:
 
     def padding(self, ch):
         r = self.rng
-        width = r.choice([["relative", r.choice([100, 100, 60, 33])], ["given", r.choice([1, 2, 3, 5, 8])]])
-        minw = r.choice([None, None, 1, 3]) if width[0] == "relative" else None
+        width = r.choice([["relative", r.choice([100, 100, 60, 33])], ["given", r.choice([1, 2, 3, 5, 8])], ["pack"]])
+        minw = r.choice([None, None, 1, 3]) if width[0] in ("relative", "pack") else None
         return ["padding", ch, self.align(), width, minw, r.choice([0, 0, 1, 2]), r.choice([0, 0, 1, 2])]
 
     def box(self, d):
